@@ -297,6 +297,7 @@ void h_b_seq(void)
             for (k = 0; k < len; k++) { keys[k] = c % VF_KEYS; c /= VF_KEYS; }
             if (VF_FIRST >= 0 && (len == 0 ? VF_FIRST != 0 : keys[0] != VF_FIRST)) continue;
             hinted = code % 2;
+            VF_SCEN(len > 1);
             vf_build(keys, len, hinted);
             for (k = -1; k <= VF_KEYS; k++) vf_check_find(k);
             for (e = 0; e < VF_KEYS; e++) {
@@ -330,6 +331,7 @@ void h_b_big(void)
 #endif
     for (o = 0; o < 4; o += VF_BIG_OSTEP) {
         for (e = 0; e < 8; e += VF_BIG_ESTEP) {
+            VF_SCEN(1);
             vf_reset();
             for (k = 0; k < 8; k++) { vf_insert(k, vf_orders[o][k], k % 2); }
             vf_check_tree();
@@ -358,6 +360,7 @@ void h_b_walk(void)
             int keys[VF_LEN + 1], c = code;
             for (k = 0; k < len; k++) { keys[k] = c % VF_KEYS; c /= VF_KEYS; }
             if (VF_FIRST >= 0 && (len == 0 ? VF_FIRST != 0 : keys[0] != VF_FIRST)) continue;
+            VF_SCEN(len > 1);
             vf_build(keys, len, 0);
             vf_check_traversal();
             vf_check_clear();
